@@ -143,6 +143,20 @@ RmCall(id) ==
        /\ stack' = <<[oid |-> i, list |-> DepList(Detach(objs, i), i), idx |-> 1]>>
        /\ UNCHANGED nobj
 
+\* rename: only the name cell of the object changes; every mention is rendered through the
+\* reference cells of the referrers, so nothing else has to be touched
+RenameCall(old, new) ==
+  /\ stack = <<>> /\ nops < MaxOps
+  /\ ~doc.orph          \* orphan placeholders are outside the claim (DESIGN 3.1)
+  /\ \E i \in {j \in ByName(objs, old) : ~objs[j].virt} :
+       LET outs == Step(doc, [k |-> "ren", id |-> old, id2 |-> new, l |-> [rt |-> "none"]])
+           ok == \E x \in outs : x.res = "ok"
+           exp == CHOOSE x \in outs : (ok => x.res = "ok") IN
+       /\ exp.res # "unmodelled"
+       /\ doc' = exp.st /\ last' = exp.res /\ nops' = nops + 1
+       /\ objs' = IF exp.res = "ok" THEN [objs EXCEPT ![i].line.name = new] ELSE objs
+       /\ UNCHANGED <<nobj, stack>>
+
 \* one step of the cascade
 CascadeStep ==
   /\ stack # <<>>
@@ -166,9 +180,10 @@ CascadeStep ==
 Init == /\ objs = <<>> /\ nobj = 0 /\ stack = <<>> /\ nops = 0 /\ last = "init"
         /\ doc = Init0(Cfg0)
 
-Ids == {"a", "b", "u", "v"}
+Ids == {"a", "b", "u", "v", "e1", "z"}
 Next == \/ \E k \in DOMAIN Catalogue : AddCall(Catalogue[k])
         \/ \E id \in Ids : RmCall(id)
+        \/ \E old \in {"a", "e1", "u"}, new \in {"z", "b"} : RenameCall(old, new)
         \/ CascadeStep
 Spec == Init /\ [][Next]_vars
 
